@@ -140,12 +140,12 @@ func compare(g *gate2.Gate, r *Ref) (class, desc string) {
 func kindName(r *Ref) string {
 	k := r.LastKind
 	switch k {
-	case "tail", "tail-skipped":
+	case "tail":
 		k = "tailcall"
 	case "call-skipped":
-		k = "call"
-	case "ret":
-		k = "return"
+		k = "goto" // the guard was false: the label only jumps
+	case "ret", "tail-skipped":
+		k = "return" // (a guarded tail call whose guard is false only returns)
 	}
 	return k
 }
